@@ -1,11 +1,26 @@
-"""C12: checkpoint at step k, restore into another instance, compare the future with the uninterrupted run (real code)."""
-import copy, io, math
+"""C12: checkpoint at step k, restore into other instances, compare the future with the uninterrupted run (real code).
+
+One protocol for every component kind (`protocol`):
+  * the source runs T steps; after EVERY step all read-only observers are evaluated (every public property of every
+    submodule + peek / dump / view of reducers, current_at / spike_at of synapses, classifier inference, record reads);
+  * at step k the state is serialised ONCE (bytes) and deserialised ONCE: that one checkpoint OBJECT is restored into a target
+    that has run on other data (with its own train/eval and adapt schedule, every observer exercised after each of its steps),
+    then - after that target has run - the SAME object is restored a second time (rewinding the same target, or into a third
+    instance); after every run the object is deep-compared with a fresh torch.load of the same bytes (must not be mutated);
+  * right after each restore (before the next step): the target's state dict equals the checkpoint and ALL observers equal the
+    source's at step k; after every later step: outputs and ALL observers equal the source's; at the end the state dicts agree;
+  * optionally (transfer="live") the live state_dict() of the source is loaded into a target at step k (no serialisation) and
+    both are stepped side by side;
+  * train / eval mode, adapt and refrac_lock flags follow a per-step schedule (eval-mode futures included).
+"""
+import copy, io, math, re
 import torch
 from common import main
 import factory
 from c11_impl import mk_trainer, with_batch, scale_weights, rand_spikes, layer_io
 from inferno import neural, learn, observe
 from inferno.core.infrastructure import Module, RecordTensor
+import torch.nn as nn
 
 
 def sd_copy(mod):
@@ -42,7 +57,9 @@ def sd_equal(a, b, path=""):
         return None
     if isinstance(a, float) and isinstance(b, float) and math.isnan(a) and math.isnan(b):
         return None
-    return None if a == b else f"{path}: {a!r} != {b!r}"
+    if torch.is_tensor(a) or torch.is_tensor(b) or isinstance(a, (dict, list, tuple)) or isinstance(b, (dict, list, tuple)):
+        return f"{path}: {type(a).__name__} vs {type(b).__name__}"
+    return None if (type(a) is type(b) or isinstance(a, (int, float)) and isinstance(b, (int, float))) and a == b else f"{path}: {a!r} != {b!r}"
 
 
 def out_equal(a, b):
@@ -55,7 +72,124 @@ def out_equal(a, b):
     return a.shape == b.shape and torch.equal(torch.nan_to_num(a.double(), nan=12345.0), torch.nan_to_num(b.double(), nan=12345.0))
 
 
-class LayerRig:
+
+# ---------------------------------------------------------------- observers
+class _Skip:
+    pass
+
+
+SKIP = _Skip()
+
+
+def _conv(v, depth=0):
+    if torch.is_tensor(v):
+        return v.detach().clone()
+    if v is None or isinstance(v, (bool, int, float, str)):
+        return v
+    if isinstance(v, (tuple, list)) and depth < 3:
+        r = [_conv(x, depth + 1) for x in v]
+        return SKIP if any(x is SKIP for x in r) else r
+    if isinstance(v, dict) and depth < 3:
+        r = {str(k): _conv(x, depth + 1) for k, x in v.items()}
+        return SKIP if any(x is SKIP for x in r.values()) else r
+    return SKIP
+
+
+def _try(f):
+    try:
+        return _conv(f())
+    except Exception as e:  # noqa
+        return "EXC:" + type(e).__name__
+
+
+def _selector(shape, delay):
+    n = 1
+    for d in shape:
+        n *= d
+    return ((torch.arange(n * 2, dtype=torch.float64) * 0.37) % 1.0).reshape(*shape, 2) * delay
+
+
+def observers(mods):
+    """every public getter (property) of every submodule, plus the read-only methods of reducers, synapses and records"""
+    out = {}
+    for i, mod in enumerate(mods):
+        for mname, m in mod.named_modules():
+            pre = f"{i}:{mname}."
+            for name in dir(type(m)):
+                if name.startswith("_") or not isinstance(getattr(type(m), name, None), property):
+                    continue
+                v = _try(lambda: getattr(m, name))
+                if v is not SKIP:
+                    out[pre + name] = v
+            if isinstance(m, observe.Reducer):
+                out[pre + "peek()"] = _try(m.peek)
+                out[pre + "dump()"] = _try(m.dump)
+                dur = getattr(m, "duration", 0.0) or 0.0
+                out[pre + "view(0)"] = _try(lambda: m.view(0.0))
+                if dur > 0:
+                    out[pre + "view(dur/3)"] = _try(lambda: m.view(dur / 3.0))
+                    out[pre + "view(dur)"] = _try(lambda: m.view(float(dur)))
+                out[pre + "dump() again"] = _try(m.dump)
+            if isinstance(m, neural.Synapse) and hasattr(m, "current_at"):
+                sel = _selector(tuple(m.batchedshape), float(m.delay))
+                out[pre + "current_at(sel)"] = _try(lambda: m.current_at(sel))
+                out[pre + "spike_at(sel)"] = _try(lambda: m.spike_at(sel))
+            for aname, attr in list(vars(m).items()):
+                if isinstance(attr, RecordTensor):
+                    out[pre + aname + ".peek()"] = _try(attr.peek)
+                    out[pre + aname + ".pointer"] = _try(lambda: attr.pointer)
+                    out[pre + aname + ".readrange"] = _try(lambda: attr.readrange(attr.recordsz, 1))
+    return out
+
+
+def freeze(state):
+    """serialise (what a user does with torch.save); the bytes are the reference copy of the checkpoint"""
+    buf = io.BytesIO()
+    torch.save(state, buf)
+    return buf.getvalue()
+
+
+def thaw(blob):
+    return torch.load(io.BytesIO(blob), weights_only=False)
+
+
+# ---------------------------------------------------------------- rigs: one per component kind
+class Rig:
+    lazy = True          # has lazily shaped state: k = 0 checkpoints go into fresh targets, later ones into stepped targets
+    cls = None           # class name for the persistent-field tie (None: no table entry)
+
+    def mods(self):
+        raise NotImplementedError
+
+    def gen_inputs(self, g, n):
+        raise NotImplementedError
+
+    def step(self, t, inp, mode):
+        raise NotImplementedError
+
+    def event(self, t):          # scheduled non-step operations (clears) before step t
+        pass
+
+    def clear(self):
+        pass
+
+    def probe(self):             # observers that are not reachable through mods()
+        return {}
+
+    def state(self):
+        return {str(i): m.state_dict() for i, m in enumerate(self.mods())}
+
+    def load(self, ck, strict=True):
+        for i, m in enumerate(self.mods()):
+            m.load_state_dict(ck[str(i)], strict=strict)
+
+    def observe(self):
+        o = observers(self.mods())
+        o.update(self.probe())
+        return o
+
+
+class LayerRig(Rig):
     """a layer, optionally with a trainer; one `step` = layer step [+ trainer step [+ update]]"""
 
     def __init__(self, case, seed_offset):
@@ -72,7 +206,18 @@ class LayerRig:
             conn.updater = conn.defaultupdater()
             self.trainer.register_cell("c", self.layer.cell)
 
-    def step(self, x, sig, t):
+    def mods(self):
+        return [self.layer] + ([self.trainer] if self.trainer is not None else [])
+
+    def gen_inputs(self, g, n):
+        B, ishape = self.case["B"], tuple(self.case["in"])
+        xs = [rand_spikes(g, (B, *ishape), 0.5) for _ in range(n)]
+        sigs = [((torch.rand(B, generator=g) * 4 - 2) * 4).round() / 4 for _ in range(n)]
+        return list(zip(xs, sigs))
+
+    def step(self, t, inp, mode):
+        x, sig = inp
+        self.layer.train(mode.get("train", True))
         out = layer_io(self.layer, self.spec, x)
         if self.trainer is not None:
             self.trainer(sig) if self.needs else self.trainer()
@@ -82,57 +227,15 @@ class LayerRig:
         return out
 
     def state(self):
-        s = {"layer": sd_copy(self.layer)}
+        s = {"layer": self.layer.state_dict()}
         if self.trainer is not None:
-            s["trainer"] = sd_copy(self.trainer)
+            s["trainer"] = self.trainer.state_dict()
         return s
 
     def load(self, s, strict=True):
         self.layer.load_state_dict(s["layer"], strict=strict)
         if self.trainer is not None:
             self.trainer.load_state_dict(s["trainer"], strict=strict)
-
-
-def gen_inputs(case, g, T):
-    B, ishape = case["B"], tuple(case["in"])
-    xs = [rand_spikes(g, (B, *ishape), 0.5) for _ in range(T)]
-    sigs = [((torch.rand(B, generator=g) * 4 - 2) * 4).round() / 4 for _ in range(T)]
-    return xs, sigs
-
-
-def run_layer(case):
-    T, k = case["T"], case["k"]
-    g = torch.Generator().manual_seed(case["seed"])
-    xs, sigs = gen_inputs(case, g, T)
-    A = LayerRig(case, 0)
-    outsA = []
-    ckpt = None
-    for t in range(T):
-        if t == k:
-            ckpt = A.state()
-        outsA.append(A.step(xs[t], sigs[t], t))
-    if k == T:
-        ckpt = A.state()
-    finalA = A.state()
-    # the target: same configuration, different random parameters, already run on other data
-    Bm = LayerRig(case, 1)
-    g2 = torch.Generator().manual_seed(case["seed"] + 7)
-    ys, ysig = gen_inputs(case, g2, case.get("prior", 1))
-    for t in range(case.get("prior", 1)):
-        Bm.step(ys[t], ysig[t], t)
-    try:
-        Bm.load(ckpt, strict=case.get("strict", True))
-    except Exception as e:  # noqa
-        return {"ok": False, "what": "load_failed", "detail": f"{type(e).__name__}: {str(e)[:400]}"}
-    for t in range(k, T):
-        o = Bm.step(xs[t], sigs[t], t)
-        if not out_equal(o, outsA[t]):
-            return {"ok": False, "what": "future_output_differs", "detail": f"output at step {t} (checkpoint at {k}) differs"}
-    d = sd_equal(finalA, Bm.state())
-    if d:
-        return {"ok": False, "what": "final_state_differs", "detail": d}
-    nsp = sum(int(v.sum()) for o in outsA for v in (o.values() if isinstance(o, dict) else [o]) if torch.is_tensor(v))
-    return {"ok": True, "events": nsp, "keys": len(ckpt["layer"]) + len(ckpt.get("trainer", {}))}
 
 
 def mk_reducer(spec):
@@ -203,123 +306,87 @@ def feed(red, cls, x):
     return red(x, x > 1) if cls in CONDITIONAL else red(x)
 
 
-def run_reducer(case):
-    T, k = case["T"], case["k"]
-    rcls = case["spec"]["cls"]
-    extra = 3
-    g = torch.Generator().manual_seed(case["seed"])
-    xs = [(torch.rand(case["shape"], generator=g) < 0.4).double() * (1 + (t % 3)) for t in range(T + extra)]
-    A = mk_reducer(case["spec"])
-    outs, ck = [], None
-    for t in range(T + extra):
-        if t == k:
-            ck = sd_copy(A)
-        if t == case.get("src_clear_at"):
-            A.clear(keepshape=True)        # a source that was cleared (shape kept) and keeps running
-        feed(A, rcls, xs[t])
-        outs.append(None if A.peek() is None else A.peek().clone())
-    finalA = sd_copy(A)
-    ff = fields_failure(rcls, ck, f" at step {k}")
-    if ff:
-        return ff
-    Bm = mk_reducer(case["spec"])
-    g2 = torch.Generator().manual_seed(case["seed"] + 3)
-    for _ in range(case.get("prior", 1)):
-        feed(Bm, rcls, (torch.rand(case["shape"], generator=g2) < 0.4).double())
-    if case.get("target_cleared"):
-        Bm.clear(keepshape=True)           # target run on other data, then cleared (lazily shaped storage kept)
-    try:
-        Bm.load_state_dict(ck, strict=True)
-    except Exception as e:  # noqa
-        return {"ok": False, "what": "load_failed", "detail": f"{type(e).__name__}: {str(e)[:400]}"}
-    if k >= 1:
-        pa, pb = (outs[k - 1] if case.get("src_clear_at") != k else None), Bm.peek()
-        if case.get("src_clear_at") is None and not out_equal(pb, pa):
-            return {"ok": False, "what": "restored_value_differs", "detail": f"value right after loading the step-{k} checkpoint differs from the source's"}
-    for t in range(k, T + extra):
-        if t == case.get("src_clear_at"):
-            Bm.clear(keepshape=True)
-        feed(Bm, rcls, xs[t])
-        if not out_equal(Bm.peek(), outs[t]):
-            return {"ok": False, "what": "future_output_differs", "detail": f"reducer value at step {t} (checkpoint at {k}) differs"}
-    d = sd_equal(finalA, sd_copy(Bm))
-    if d:
-        return {"ok": False, "what": "final_state_differs", "detail": d}
-    return {"ok": True, "events": int(sum(x.sum() for x in xs)), "keys": len(ck)}
+
+class ReducerRig(Rig):
+    def __init__(self, case, j):
+        self.case = case
+        self.cls = case["spec"]["cls"]
+        self.red = mk_reducer(case["spec"])
+        self.src = j == 0
+
+    def mods(self):
+        return [self.red]
+
+    def gen_inputs(self, g, n):
+        if self.src:
+            return [(torch.rand(self.case["shape"], generator=g) < 0.4).double() * (1 + (t % 3)) for t in range(n)]
+        return [(torch.rand(self.case["shape"], generator=g) < 0.4).double() for _ in range(n)]
+
+    def event(self, t):
+        if t == self.case.get("src_clear_at"):
+            self.red.clear(keepshape=True)         # a source that was cleared (shape kept) and keeps running
+
+    def clear(self):
+        self.red.clear(keepshape=True)             # target run on other data, then cleared (lazily shaped storage kept)
+
+    def step(self, t, inp, mode):
+        feed(self.red, self.cls, inp)
+        return None if self.red.peek() is None else self.red.peek().clone()
 
 
-def run_record(case):
+class RecordRig(Rig):
     """a bare RecordTensor buffer in a Module: contents and pointer are both persisted"""
-    N, T, k = case["N"], case["T"], case["k"]
-    g = torch.Generator().manual_seed(case["seed"])
+    lazy = False
 
-    def mk():
-        m = Module()
-        RecordTensor.create(m, "rec", 1.0, float(N - 1), torch.zeros(case["shape"]), inclusive=True)
-        return m
-    A = mk()
-    xs = [torch.rand(case["shape"], generator=g) for _ in range(T)]
-    ck = None
-    reads = []
-    for t in range(T):
-        if t == k:
-            ck = sd_copy(A)
-        A.rec.push(xs[t], inplace=case.get("inplace", False))
-        reads.append(A.rec.readrange(N, 1).clone())
-    if k == T:
-        ck = sd_copy(A)
-    Bm = mk()
-    for _ in range(case.get("prior", 2)):
-        Bm.rec.push(torch.rand(case["shape"], generator=g))
-    try:
-        Bm.load_state_dict(ck, strict=True)
-    except Exception as e:  # noqa
-        return {"ok": False, "what": "load_failed", "detail": f"{type(e).__name__}: {str(e)[:300]}"}
-    for t in range(k, T):
-        Bm.rec.push(xs[t], inplace=case.get("inplace", False))
-        if not torch.equal(Bm.rec.readrange(N, 1), reads[t]):
-            return {"ok": False, "what": "future_output_differs", "detail": f"history after step {t} differs (checkpoint {k})"}
-    if Bm.rec.pointer != A.rec.pointer:
-        return {"ok": False, "what": "final_state_differs", "detail": "pointer differs"}
-    # tie to the model's declared persistent fields (C12/Checkpoint.v: rsave = storage + write position)
-    keys = set(ck) | {"extra:" + k for k in ck.get("_extra_state", {})}
-    if keys != {"_rec_data", "_extra_state", "extra:_rec_pointer"}:
-        return {"ok": False, "what": "persistent_fields_differ", "detail": f"state_dict fields {sorted(keys)}"}
-    return {"ok": True, "events": T, "keys": len(ck)}
+    def __init__(self, case, j):
+        self.case = case
+        self.N = case["N"]
+        self.m = Module()
+        RecordTensor.create(self.m, "rec", 1.0, float(self.N - 1), torch.zeros(case["shape"]), inclusive=True)
+
+    def mods(self):
+        return [self.m]
+
+    def gen_inputs(self, g, n):
+        return [torch.rand(self.case["shape"], generator=g) for _ in range(n)]
+
+    def step(self, t, inp, mode):
+        self.m.rec.push(inp, inplace=self.case.get("inplace", False))
+        return self.m.rec.readrange(self.N, 1).clone()
+
+    def probe(self):
+        return {"rec.pointer": self.m.rec.pointer, "rec.peek": _try(self.m.rec.peek),
+                "rec.read": _try(lambda: self.m.rec.readrange(self.N, 1))}
+
+    def fields_failure(self, ck):
+        keys = real_fields(ck["0"])
+        # tie to the model's declared persistent fields (C12/Checkpoint.v: rsave = storage + write position)
+        if keys != {"_rec_data", "_extra_state._rec_pointer"}:
+            return {"ok": False, "what": "persistent_fields_differ", "cls": "RecordTensor", "detail": f"state_dict fields {sorted(keys)}"}
+        return None
 
 
-def run_classifier(case):
-    T, k = case["T"], case["k"]
-    g = torch.Generator().manual_seed(case["seed"])
-    shape, K, B = tuple(case["shape"]), case["classes"], case["B"]
-    mk = lambda: learn.MaxRateClassifier(shape, K, decay=case.get("decay", 0.0))
-    xs = [torch.rand((B, *shape), generator=g).float() for _ in range(T)]
-    ls = [torch.randint(0, K, (B,), generator=g) for _ in range(T)]
-    A = mk()
-    outs, ck = [], None
-    for t in range(T):
-        if t == k:
-            ck = sd_copy(A)
-        outs.append(A(xs[t], ls[t], logits=True))
-    if k == T:
-        ck = sd_copy(A)
-    Bm = mk()
-    for _ in range(case.get("prior", 1)):
-        Bm(torch.rand((B, *shape), generator=g).float(), torch.randint(0, K, (B,), generator=g))
-    try:
-        Bm.load_state_dict(ck, strict=True)
-    except Exception as e:  # noqa
-        return {"ok": False, "what": "load_failed", "detail": f"{type(e).__name__}: {str(e)[:300]}"}
-    for nm in ("assignments", "occurrences", "proportions", "rates"):
-        pass
-    for t in range(k, T):
-        o = Bm(xs[t], ls[t], logits=True)
-        if not out_equal(o, outs[t]):
-            return {"ok": False, "what": "future_output_differs", "detail": f"classifier inference at step {t} differs (checkpoint {k})"}
-    for nm in ("assignments", "occurrences", "proportions", "rates"):
-        if not torch.equal(getattr(A, nm), getattr(Bm, nm)):
-            return {"ok": False, "what": "final_state_differs", "detail": f"derived buffer {nm} differs"}
-    return {"ok": True, "events": T, "keys": len(ck)}
+class ClassifierRig(Rig):
+    def __init__(self, case, j):
+        self.case = case
+        self.shape, self.K, self.B = tuple(case["shape"]), case["classes"], case["B"]
+        self.clf = learn.MaxRateClassifier(self.shape, self.K, decay=case.get("decay", 0.0))
+        self.px = ((torch.arange(3 * int(torch.tensor(self.shape).prod()), dtype=torch.float64) * 0.61) % 1.0).reshape(3, *self.shape).float()
+
+    def mods(self):
+        return [self.clf]
+
+    def gen_inputs(self, g, n):
+        return [(torch.rand((self.B, *self.shape), generator=g).float(), torch.randint(0, self.K, (self.B,), generator=g))
+                for _ in range(n)]
+
+    def step(self, t, inp, mode):
+        return self.clf(inp[0], inp[1], logits=True)
+
+    def probe(self):
+        # inference only (labels=None does not update the classifier)
+        return {"infer(logits)": _try(lambda: self.clf(self.px, None, logits=True)),
+                "infer": _try(lambda: self.clf(self.px, None, logits=False))}
 
 
 # ---------------------------------------------------------------- bare components (the models of coq/C12/Components.v)
@@ -330,6 +397,44 @@ def mk_component(cls, dt=1.0, delay=2.0, shape=(3,), batch=2, inplace=False):
     if cls in factory.NEURON_DEFAULTS:
         return factory.build_neuron({"cls": cls, "shape": list(shape), "dt": dt, "batch": batch})
     return mk_reducer({"cls": cls, "dt": dt, "duration": delay, "inplace": inplace})
+
+
+
+class ComponentRig(Rig):
+    """a bare synapse / neuron (model: synapse_resume / neuron_resume of coq/C12/ComponentsProofs.v)"""
+    lazy = False
+
+    def __init__(self, case, j):
+        self.case = case
+        self.cls = case["cls"]
+        self.shape, self.batch = tuple(case["shape"]), case["B"]
+        self.issyn = self.cls in factory.SYNAPSE_DEFAULTS
+        self.comp = mk_component(self.cls, case["dt"], case.get("delay", 0.0), self.shape, self.batch, case.get("inplace", False))
+
+    def mods(self):
+        return [self.comp]
+
+    def gen_inputs(self, g, n):
+        full = (self.batch, *self.shape)
+        if self.issyn:
+            return [(torch.rand(full, generator=g) < 0.5, torch.rand(full, generator=g)) for _ in range(n)]
+        return [torch.rand(full, generator=g) * 300.0 - 20.0 for _ in range(n)]
+
+    def event(self, t):
+        if t == self.case.get("clear_at"):
+            self.comp.clear()
+
+    def clear(self):
+        self.comp.clear()
+
+    def step(self, t, inp, mode):
+        c = self.comp
+        if self.issyn:
+            out = c(inp[0], inp[1]) if self.cls == "DeltaPlusCurrent" else c(inp[0])
+            return [out.clone(), c.spike.clone(), c.current.clone()]
+        c.train(mode.get("train", True))
+        out = c(inp, adapt=mode.get("adapt"), refrac_lock=mode.get("lock", True))
+        return [out.clone(), c.voltage.clone(), c.refrac.clone()]
 
 
 def drive(comp, cls, g, shape, batch):
@@ -368,60 +473,219 @@ def run_fields(case):
     return {"ok": True, "events": 1, "keys": len(DECLARED_FIELDS[cls])}
 
 
-def run_component(case):
-    """a bare synapse / neuron: checkpoint at step k, strict load into another instance of the same configuration that has
-    run `prior` steps on other data, compare every later observation and the final state dict (model: synapse_resume /
-    neuron_resume of coq/C12/ComponentsProofs.v)"""
-    cls, T, k = case["cls"], case["T"], case["k"]
-    shape, batch = tuple(case["shape"]), case["B"]
-    mk = lambda: mk_component(cls, case["dt"], case.get("delay", 0.0), shape, batch, case.get("inplace", False))  # noqa: E731
-    issyn = cls in factory.SYNAPSE_DEFAULTS
-    sel = None
-    if issyn and case.get("delay", 0.0) > 0:
-        gs = torch.Generator().manual_seed(case["seed"] + 5)
-        sel = torch.rand((batch, *shape, 2), generator=gs) * case["delay"]
 
-    def observe_at(m):
-        if sel is None:
-            return []
-        return [m.current_at(sel).clone(), m.spike_at(sel).clone()]
-    A = mk()
-    gA = torch.Generator().manual_seed(case["seed"])
-    gB = torch.Generator().manual_seed(case["seed"])
-    outs, ck = [], None
-    for t in range(T):
+# ---------------------------------------------------------------- schedules
+def gen_modes(case, n, salt, freeze_last=False):
+    """per-step train / eval mode and (bare neurons) adapt / refrac_lock flags"""
+    g = torch.Generator().manual_seed(case["seed"] * 7 + salt)
+    kind = case.get("modes", "train")
+    k = case.get("k", 0)
+    out = []
+    for t in range(n):
+        r = torch.rand(3, generator=g).tolist()
+        if kind == "train":
+            m = {"train": True}
+        elif kind == "eval_after_k":       # train, checkpoint, continue (or restore) for inference
+            m = {"train": (t < k) if salt == 0 else True}
+        else:                                # mixed
+            m = {"train": r[0] < 0.6, "adapt": [None, None, True, False][int(r[1] * 4)], "lock": r[2] < 0.8}
+        out.append(m)
+    if freeze_last and len(out) >= 2:
+        out[-1] = {"train": False, "adapt": False} if kind == "mixed" else {"train": False}
+    if out:
+        out[0]["train"] = True       # monitors do not record in eval mode: the first step shapes the lazily shaped reducers
+    return out
+
+
+def _fail(what, detail, **kw):
+    return dict({"ok": False, "what": what, "detail": detail}, **kw)
+
+
+def make_target(case, mk, j):
+    """same configuration, different random parameters, already run on other data; every observer exercised after every step"""
+    rig = mk(j)
+    prior = case.get("prior", 1) if j == 1 else case.get("prior2", (case.get("prior", 1) + 2) if case.get("prior", 1) or not rig.lazy else 0)
+    ys = rig.gen_inputs(torch.Generator().manual_seed(case["seed"] + 7 * j), prior)
+    pm = gen_modes(case, prior, 100 + j, freeze_last=bool(case.get("target_frozen_last")))
+    rig.observe()
+    for t in range(prior):
+        rig.step(t, ys[t], pm[t])
+        rig.observe()
+    if case.get("target_cleared"):
+        rig.clear()
+        rig.observe()
+    return rig
+
+
+ACC_KEY = re.compile(r"^\d+:(.*updater_\.updates_\.\w+)\.(pos|neg)$")
+
+
+def stale_accumulator_evidence(keys, obs_k, ob, pre, ck, pre_state):
+    """Is the difference exactly the known finding C12-accumulator-cache-stale-after-load?  Every differing observer must be an
+    Accumulator.pos / .neg getter such that (i) the checkpoint and the target before the load hold the SAME non-zero number of
+    pending parts for it, (ii) the target's getter was read before the load while those parts were pending (a tensor, not None),
+    (iii) the value observed after the load EQUALS the target's own pre-load reduction (the memo), not the checkpoint's."""
+    if pre is None or not keys:
+        return None
+    ev = []
+    for key in keys:
+        m = ACC_KEY.match(key)
+        if not m:
+            return None
+        prefix = f"{m.group(1)}._{m.group(2)}."
+        n_ck = sum(1 for sd in ck.values() for kk in sd if kk.startswith(prefix))
+        n_tg = sum(1 for sd in pre_state.values() for kk in sd if kk.startswith(prefix))
+        if n_ck == 0 or n_ck != n_tg:
+            return None
+        if not torch.is_tensor(pre.get(key)) or sd_equal(pre[key], ob.get(key)) is not None:
+            return None
+        ev.append({"getter": key, "pending_parts": n_ck})
+    return ev
+
+
+def compare_restored(rig, obs_k, case, label, pre=None, ck=None, pre_state=None):
+    """ALL observers right after a restore, before the next step"""
+    k = case["_k"]
+    ob = rig.observe()
+    keys = sorted(set(obs_k) | set(ob))
+    diff = [a for a in keys if a not in obs_k or a not in ob or sd_equal(obs_k[a], ob[a], a) is not None]
+    if not diff:
+        return None
+    a = diff[0]
+    d = (sd_equal(obs_k[a], ob[a], a) if a in obs_k and a in ob else f"{a}: present on one side only")
+    r = _fail("restored_observer_differs", f"{label}: observer right after the restore (checkpoint at {k}, before the next step) differs: /{d}"
+              + (f" (+{len(diff) - 1} more)" if len(diff) > 1 else ""))
+    ev = stale_accumulator_evidence(diff, obs_k, ob, pre, ck or {}, pre_state or {})
+    if ev:
+        r["stale_accumulator"] = ev
+    return r
+
+
+def restore_and_compare(rig, ck, ck_ref, case, xs, modes, recs, obs_k, upto, label, final_ref=None):
+    k = case["_k"]
+    pre, pre_state = rig.observe(), {a: list(b.keys()) for a, b in rig.state().items()}     # the target just before the load
+    try:
+        rig.load(ck, strict=case.get("strict", True))
+    except Exception as e:  # noqa
+        return _fail("load_failed", f"{label}: {type(e).__name__}: {str(e)[:400]}")
+    d = sd_equal(ck_ref, thaw(freeze(rig.state())))
+    if d:
+        return _fail("restored_state_differs", f"{label}: state dict right after load_state_dict differs from the checkpoint: {d}")
+    r = compare_restored(rig, obs_k, case, label, pre, ck_ref, pre_state)
+    if r:
+        return r
+    for t in range(k, upto):
+        rig.event(t)
+        o = rig.step(t, xs[t], modes[t])
+        if not out_equal(o, recs[t][0]):
+            return _fail("future_output_differs", f"{label}: output at step {t} (checkpoint at {k}) differs")
+        d = sd_equal(recs[t][1], rig.observe())
+        if d:
+            return _fail("future_observer_differs", f"{label}: observer after step {t} (checkpoint at {k}) differs: {d}")
+    if final_ref is not None:
+        d = sd_equal(final_ref, thaw(freeze(rig.state())))
+        if d:
+            return _fail("final_state_differs", f"{label}: {d}")
+    return None
+
+
+def protocol(case, mk, T):
+    k = min(case["k"], T)
+    case = dict(case, _k=k)
+    A = mk(0)
+    xs = A.gen_inputs(torch.Generator().manual_seed(case["seed"]), T)
+    modes = gen_modes(case, T, 0)
+    recs, blob, obs_k, follower = [], None, None, None
+    A.observe()
+    for t in range(T + 1):
         if t == k:
-            ck = sd_copy(A)
-            gB.set_state(gA.get_state())
-        if t == case.get("clear_at"):
-            A.clear()
-        outs.append(drive(A, cls, gA, shape, batch) + observe_at(A))
-    if k == T:
-        ck = sd_copy(A)
-    finalA = sd_copy(A)
-    ff = fields_failure(cls, ck, f" at step {k}")
+            blob = freeze(A.state())
+            obs_k = A.observe()
+            if case.get("transfer") == "live":
+                # the live state_dict() of the source, not serialised, loaded into a target; both keep running
+                follower = make_target(case, mk, 3)
+                pre, pre_state = follower.observe(), {a: list(b.keys()) for a, b in follower.state().items()}
+                try:
+                    follower.load(A.state(), strict=case.get("strict", True))
+                except Exception as e:  # noqa
+                    return _fail("load_failed", f"live transfer: {type(e).__name__}: {str(e)[:400]}")
+                r = compare_restored(follower, obs_k, case, "live transfer", pre, thaw(blob), pre_state)
+                if r:
+                    return r
+        if t == T:
+            break
+        A.event(t)
+        out = A.step(t, xs[t], modes[t])
+        recs.append((out, A.observe()))
+        if follower is not None:
+            follower.event(t)
+            o = follower.step(t, xs[t], modes[t])
+            if not out_equal(o, recs[t][0]):
+                return _fail("future_output_differs", f"live transfer at step {k}: output at step {t} differs (source and target share state?)")
+            d = sd_equal(recs[t][1], follower.observe())
+            if d:
+                return _fail("future_observer_differs", f"live transfer at step {k}: observer after step {t} differs: {d}")
+    final_ref = thaw(freeze(A.state()))
+    if follower is not None:
+        d = sd_equal(final_ref, thaw(freeze(follower.state())))
+        if d:
+            return _fail("final_state_differs", f"live transfer: {d}")
+    ck_ref = thaw(blob)
+    ff = None
+    if A.cls in DECLARED_FIELDS:
+        ff = fields_failure(A.cls, ck_ref["0"], f" at step {k}")
+    elif hasattr(A, "fields_failure"):
+        ff = A.fields_failure(ck_ref)
     if ff:
         return ff
-    Bm = mk()
-    g2 = torch.Generator().manual_seed(case["seed"] + 7)
-    for _ in range(case.get("prior", 0)):
-        drive(Bm, cls, g2, shape, batch)
-    if case.get("target_cleared"):
-        Bm.clear()
-    try:
-        Bm.load_state_dict(ck, strict=True)
-    except Exception as e:  # noqa
-        return {"ok": False, "what": "load_failed", "detail": f"{type(e).__name__}: {str(e)[:400]}"}
-    for t in range(k, T):
-        if t == case.get("clear_at"):
-            Bm.clear()
-        o = drive(Bm, cls, gB, shape, batch) + observe_at(Bm)
-        if not out_equal(o, outs[t]):
-            return {"ok": False, "what": "future_output_differs", "detail": f"{cls}: observation at step {t} (checkpoint at {k}) differs"}
-    d = sd_equal(finalA, sd_copy(Bm))
+    ck = thaw(blob)                       # the ONE checkpoint object used for every restore below
+    B = make_target(case, mk, 1)
+    r = restore_and_compare(B, ck, ck_ref, case, xs, modes, recs, obs_k, T, "first restore", final_ref)
+    if r:
+        return r
+    d = sd_equal(ck_ref, ck)
     if d:
-        return {"ok": False, "what": "final_state_differs", "detail": d}
-    return {"ok": True, "events": int(sum(float(o[0].sum()) for o in outs)), "keys": len(ck)}
+        return _fail("checkpoint_mutated", f"running the restored instance changed the deserialised checkpoint object: {d}")
+    upto = T if case.get("second_full") else min(T, k + 3)
+    if case.get("second", "rewind") == "rewind" and not (A.lazy and k == 0):
+        r = restore_and_compare(B, ck, ck_ref, case, xs, modes, recs, obs_k, upto, "second restore of the same checkpoint object (rewind)",
+                                final_ref if upto == T else None)
+    else:
+        C = make_target(case, mk, 2)
+        r = restore_and_compare(C, ck, ck_ref, case, xs, modes, recs, obs_k, upto,
+                                "second restore of the same checkpoint object (into a third instance)", final_ref if upto == T else None)
+    if r:
+        r["what"] = "second_" + r["what"] if not r["what"].startswith("load") else r["what"]
+        return r
+    d = sd_equal(ck_ref, ck)
+    if d:
+        return _fail("checkpoint_mutated", f"after the second restore: {d}")
+    ev = 0
+    for o, _ in recs:
+        for v in (o.values() if isinstance(o, dict) else (o if isinstance(o, (list, tuple)) else [o])):
+            if torch.is_tensor(v):
+                ev += int(v.double().abs().sum() > 0)
+    return {"ok": True, "events": ev, "keys": sum(len(v) for v in ck_ref.values()), "observers": len(obs_k)}
+
+
+def run_layer(case):
+    return protocol(case, lambda j: LayerRig(case, j), case["T"])
+
+
+def run_reducer(case):
+    return protocol(case, lambda j: ReducerRig(case, j), case["T"] + 3)      # steps beyond T as well
+
+
+def run_record(case):
+    return protocol(case, lambda j: RecordRig(case, j), case["T"])
+
+
+def run_classifier(case):
+    return protocol(case, lambda j: ClassifierRig(case, j), case["T"])
+
+
+def run_component(case):
+    return protocol(case, lambda j: ComponentRig(case, j), case["T"])
 
 
 RUN = {"layer": run_layer, "reducer": run_reducer, "record": run_record, "classifier": run_classifier,
